@@ -629,6 +629,9 @@ def run(chk):
            private_emit("emit::macro_hooks::__private_emit_event"))
 
     # unclassified impls: generic discipline only (no alarm for shape)
+    # macro/runtime boundary: what the expansion passes at each named hook parameter (read off emit_macros' quote! templates)
+    from . import quotes
+    quotes.boundary_rule(chk, P, "C01", {"__private_emit", "__private_emit_event", "__private_evt"}, 4)
     if chk.tier == "thorough":
         # the no_std / no-alloc build of emit_core has its own copy of the pipeline
         try:
